@@ -54,6 +54,22 @@ def random_case(rng):
     return {"structure": {"lattice": lat, "atoms": atoms}, "call": call}
 
 
+def dyadic_case(rng):
+    """Inputs that are short binary fractions (cell given by its base matrix in eighths, coordinates in 64ths, radii in
+    eighths): the exact-rational model then works with small numbers.  Any shape and orientation of cell is reachable."""
+    while True:
+        case = random_case(rng)
+        L = h09.make_lattice(case["structure"]["lattice"])
+        base = numpy.round(numpy.array(L.base, dtype=float) * 8) / 8
+        if numpy.linalg.det(base) > 0.3 * abs(numpy.linalg.det(L.base)) and numpy.linalg.det(base) > 1e-3:
+            break
+    case["structure"]["lattice"] = {"kind": "base", "base": base.tolist()}
+    for a in case["structure"]["atoms"]:
+        a["xyz"] = [round(x * 64) / 64 for x in a["xyz"]]
+    case["call"]["radii"] = [max(0.125, round(r * 8) / 8) for r in case["call"]["radii"]]
+    return case
+
+
 def radii3(call):
     r = call["radii"]
     a = r[0]
@@ -192,7 +208,7 @@ def margins_ok(S, case, status, res, variant):
     m = max(math.ceil(2 * f) for f in frac)
     if m < 1 or len(S) == 0:
         return True
-    if m ** 3 * len(S) > 700:
+    if m ** 3 * len(S) > 400:
         return False
     B = numpy.array(S.lattice.base, dtype=float) * m
     xyz = numpy.array([(numpy.array(p.xyz) + [i, j, k]) / m for p in S for i in range(m) for j in range(m) for k in range(m)])
@@ -273,8 +289,8 @@ def run_cases(ctx, ncases, with_model, variant):
     nviol = 0
     todo = []
     nskip = 0
-    for _ in range(ncases):
-        case = random_case(rng)
+    for k in range(ncases):
+        case = dyadic_case(rng) if (with_model and k % 2 == 0) else random_case(rng)
         S = h15.build_structure(case["structure"])
         before = h15.snapshot(S)
         status, res = do_call(S, case["call"])
@@ -285,7 +301,7 @@ def run_cases(ctx, ncases, with_model, variant):
         ctx.count(("case", len(S), lat["kind"], "rot" in lat, case["call"]["fn"], len(case["call"]["radii"]),
                    status if status != "ok" else min(len(res), 40)))
         nviol += report(ctx, case, fails)
-        if with_model:
+        if with_model and case["structure"]["lattice"]["kind"] == "base" and k % 2 == 0:
             if margins_ok(S, case, status, res, variant):
                 todo.append((case, S, status, res))
             else:
